@@ -33,8 +33,8 @@ def check(run):
         records.extend(st['records'])
         wrote += sum(1 for r in st['records'] if r.get('wrote'))
     LIB = ('mirsym.checks.process_level', 'LibraryProcess')
-    st = run.explore('real run: streams of 1..2 library messages (answered queries, failing queries, commands, faults), N=16, every chunking: exactly one write + flush per answered message, nothing else written',
-                     LIB + ({'k': 2, 'N': 16, 'max_len': 10 if not thorough else 14},), 1200)
+    st = run.explore('real run: streams of 1..2 library messages (answered queries, failing queries, commands, faults), N=16, whole / byte-wise / every one and two cut positions (every chunking for streams up to 8 bytes): exactly one write + flush per answered message, nothing else written',
+                     LIB + ({'k': 2, 'N': 16, 'max_len': 16},), 1200)
     records.extend(st['records'])
     cov['vacuity']['real_run_executions_that_wrote_a_response'] = wrote
     if wrote == 0:
